@@ -323,9 +323,10 @@ pub fn c03(tier: Tier) -> i32 {
             vec![WOp::TxCreate(3, 3)],
             vec![WOp::TxSetProp(1, 4), WOp::Compact],
             vec![WOp::TxDeleteEdge(1, 2), WOp::Compact],
-            vec![WOp::TxCreate(3, 3), WOp::Compact, WOp::TxSetProp(3, 4)],
+            vec![WOp::Compact, WOp::TxSetProp(1, 4)],
         ];
         if tier == Tier::Thorough {
+            l.push(vec![WOp::TxCreate(3, 3), WOp::Compact, WOp::TxSetProp(3, 4)]);
             l.push(vec![WOp::TxLabel(1), WOp::TxSetProp(2, 3), WOp::Compact, WOp::TxSetProp(2, 4)]);
             l.push(vec![WOp::CreateIndex, WOp::TxSetProp(1, 3), WOp::TxCreate(3, 3)]);
             l.push(vec![WOp::Compact, WOp::TxCreate(3, 3), WOp::TxDeleteEdge(1, 3), WOp::Compact]);
@@ -436,9 +437,15 @@ pub fn c03(tier: Tier) -> i32 {
                     rep.violation(Violation { class, kinds: kinds_v, replay, detail: format!("snapshot taken with {lo} ops completed / {hi} started changed later: {d}") });
                     return;
                 }
-                let ok = (lo..=hi.min(seqref.len() - 1)).any(|p| seqref[p].diff(&d1).is_none());
+                let diffs: Vec<Option<(String, String)>> = (lo..=hi.min(seqref.len() - 1)).map(|p| seqref[p].diff(&d1)).collect();
+                let ok = diffs.iter().any(|d| d.is_none());
                 if !ok {
-                    let (c, d) = seqref[hi.min(seqref.len() - 1)].diff(&d1).unwrap_or(("diff:unknown".into(), String::new()));
+                    // class = what distinguishes the snapshot from EACH admissible sequential state
+                    let mut cs: Vec<String> = diffs.iter().flatten().map(|d| d.0.clone()).collect();
+                    cs.sort();
+                    cs.dedup();
+                    let c = cs.join("+");
+                    let d = diffs.iter().flatten().map(|d| d.1.clone()).collect::<Vec<_>>().join(" || ");
                     let class = format!("inconsistent:{c}");
                     rep.outcome(&class);
                     rep.violation(Violation { class, kinds: kinds_v, replay, detail: format!("snapshot ({lo} ops completed, {hi} started) equals no sequential state in that range; vs state {hi}: {d}") });
@@ -495,8 +502,9 @@ fn run_pop(e: &GraphEngine, op: POp, tid: usize) -> Result<(), String> {
         POp::Writer => {
             let mut tx = e.begin_write();
             let l = tx.get_or_create_label(if tid == 0 { "L0" } else { "L1" }).map_err(|e| e.to_string())?;
-            let n = tx.create_node(50 + tid as u64, l).map_err(|e| e.to_string())?;
-            tx.set_node_property(n, "k".into(), PV::Int(9));
+            let _n = tx.create_node(50 + tid as u64, l).map_err(|e| e.to_string())?;
+            // exactly one property per transaction: the order in which a commit visits several
+            // properties depends on HashMap iteration order, which would make schedules irreproducible
             let one = e.lookup_internal_id(1).ok_or("node 1")?;
             tx.set_node_property(one, "k".into(), PV::Int(5 + tid as i64));
             tx.commit().map_err(|e| e.to_string())
